@@ -4,6 +4,7 @@ CONSTANTS
   NWrites = 5
   NReads = 2
   SizedOutsideLock = TRUE
+  ShutdownInline = FALSE
   ClientGuarded = FALSE
   Part = "alerts"
 INVARIANTS NoIndexPanic NoTear
